@@ -11,12 +11,16 @@ import (
 )
 
 func (m *Machine) callNative(t *Thread, name string, args []Value, ins ssa.Instruction, onRet func(Value), advance func(), deferOwner *Frame) {
-	if !strings.HasPrefix(name, "builtin:") {
-		panic(unsupported("native " + name))
-	}
 	ret := func(v Value) {
 		onRet(v)
 		advance()
+	}
+	if strings.HasPrefix(name, "rtype:") {
+		m.rtypeMethod(t, name[6:], args, ins, ret)
+		return
+	}
+	if !strings.HasPrefix(name, "builtin:") {
+		panic(unsupported("native " + name))
 	}
 	switch name[8:] {
 	case "len":
